@@ -84,10 +84,18 @@ _prof = ProfileContext("AccelerationEval.${group.name}_d_${dest}_s_${source}.loo
 #######################################################################
 nnps.set_context(src_array_index, dst_array_index)
 
+% if helper.verif_sched:
+for _vchunk in _vsched.chunks(D_START_IDX, NP_DEST):
+    thread_id = _vchunk[0]
+    _vsched.enter(thread_id)
+    ${indent(eq_group.get_variable_array_setup(), 1)}
+    for d_idx in _vchunk[1]:
+% else:
 ${helper.get_parallel_block()}
     thread_id = threadid()
     ${indent(eq_group.get_variable_array_setup(), 1)}
     for d_idx in ${helper.get_parallel_range(group, nogil=False)}:
+% endif
         ###############################################################
         ## Find and iterate over neighbors.
         ###############################################################
@@ -166,6 +174,10 @@ prange = range
 from cython.parallel import parallel, prange, threadid
 % endif
 
+% if helper.verif_sched:
+import importlib as _vil, os as _vos
+_vsched = _vil.import_module(_vos.environ['PYSPH_VERIF_SCHED_MODULE']).SCHED
+% endif
 from compyle.profile import profile_ctx, ProfileContext
 from pysph.base.particle_array cimport ParticleArray
 from pysph.base.nnps_base cimport NNPS
